@@ -86,7 +86,7 @@ pub fn c06() -> Simple {
         thorough: 10_000_000,
         budget_q: 60,
         budget_t: 600,
-        owns: &["text-value", "resp-malformed", "resp-shape", "api-call-failed", "panic", "end", "resp-missing"],
+        owns: &["text-value", "resp-malformed", "resp-shape", "api-call-failed", "panic", "end", "resp-missing", "decode-myc"],
         gen: gen_c06,
         extra: None,
         assumptions: INPUT_ASSUME,
@@ -121,6 +121,7 @@ fn prep_exec(r: &mut Rng, id: u32, cols: Vec<ColSpec>, prog: Program) -> Vec<Cmd
                     bind: None,
                     values: vec![],
                     raw: None,
+                    stale_types: None,
                 },
             },
             act: Act::Program(prog),
@@ -229,6 +230,7 @@ pub fn c07() -> Simple {
         owns: &[
             "bin-value",
             "null-bitmap",
+            "decode-myc",
             "contradiction-accepted",
             "resp-malformed",
             "resp-shape",
@@ -442,7 +444,7 @@ pub fn c09() -> Simple {
         thorough: 1_500_000,
         budget_q: 60,
         budget_t: 600,
-        owns: &["coldef", "resp-malformed", "resp-shape", "api-call-failed", "panic", "end", "resp-missing"],
+        owns: &["coldef", "resp-malformed", "resp-shape", "api-call-failed", "panic", "end", "resp-missing", "decode-myc"],
         gen: gen_c09,
         extra: None,
         assumptions: INPUT_ASSUME,
@@ -477,6 +479,7 @@ fn gen_c10(r: &mut Rng, _t: Tier, _job: u64) -> Plan {
                                 bind: Some(vec![(0x08, 0)]),
                                 values: vec![PVal::Int(7)],
                                 raw: None,
+                    stale_types: None,
                             },
                         },
                         act: Act::Program(simple_ok_program()),
@@ -508,7 +511,12 @@ fn gen_c10(r: &mut Rng, _t: Tier, _job: u64) -> Plan {
                         }),
                     });
                 } else {
-                    let np = r.usize_below(5);
+                    let mut np = r.usize_below(5);
+                    // a re-PREPARE of a live id whose previous incarnation had bound types
+                    let stale = live.get(&id).and_then(|e| e.1.clone());
+                    if stale.is_some() && r.chance(1, 2) {
+                        np = stale.as_ref().unwrap().len().min(1 + r.usize_below(4));
+                    }
                     live.insert(id, (np, None));
                     cmds.push(Cmd {
                         seq: 0,
@@ -519,6 +527,37 @@ fn gen_c10(r: &mut Rng, _t: Tier, _job: u64) -> Plan {
                             cols: vec![],
                         }),
                     });
+                    if let Some(old) = stale {
+                        if np > 0 && np <= old.len() && r.chance(1, 3) {
+                            // a confused client reuses the types it bound before the re-PREPARE:
+                            // the execution must never reach the shim decoded with stale types
+                            let values = (0..np)
+                                .map(|i| {
+                                    let mut v = gen_pval(r, old[i].0, old[i].1, false);
+                                    if matches!(v, PVal::Null) {
+                                        v = gen_pval(r, old[i].0, old[i].1, false);
+                                    }
+                                    v
+                                })
+                                .collect();
+                            cmds.push(Cmd {
+                                seq: 0,
+                                kind: CmdKind::Execute {
+                                    stmt: id,
+                                    flags: 0,
+                                    iters: 1,
+                                    block: ParamBlock {
+                                        bind: None,
+                                        values,
+                                        raw: None,
+                                        stale_types: Some(old[..np].to_vec()),
+                                    },
+                                },
+                                act: Act::Program(simple_ok_program()),
+                            });
+                            break;
+                        }
+                    }
                 }
             }
             1 => {
@@ -752,7 +791,7 @@ impl Check for C13 {
         ctx.eval(&plan);
     }
     fn owns(&self, rule: &str) -> bool {
-        ["err-packet", "resp-shape", "resp-malformed", "resp-missing", "api-call-failed", "panic", "end"].contains(&rule)
+        ["err-packet", "resp-shape", "resp-malformed", "resp-missing", "api-call-failed", "panic", "end", "decode-myc"].contains(&rule)
     }
     fn side_checks(&self, side: &mut BTreeMap<String, serde_json::Value>, vs: &mut Vec<(String, Violation)>) {
         let kinds = crate::kinds::KINDS;
@@ -897,7 +936,7 @@ pub fn c14() -> Simple {
         thorough: 12_000_000,
         budget_q: 60,
         budget_t: 600,
-        owns: &["ok-counts", "resp-more-flag", "resp-shape", "resp-malformed", "resp-missing", "api-call-failed", "panic", "end"],
+        owns: &["ok-counts", "resp-more-flag", "resp-shape", "resp-malformed", "resp-missing", "api-call-failed", "panic", "end", "decode-myc"],
         gen: gen_c14,
         extra: None,
         assumptions: INPUT_ASSUME,
@@ -963,6 +1002,7 @@ fn gen_c16(r: &mut Rng, _t: Tier, _job: u64) -> Plan {
                     bind,
                     values,
                     raw: None,
+                    stale_types: None,
                 },
             },
             act: Act::Program(simple_ok_program()),
